@@ -470,7 +470,12 @@ class ParserText(ParserBase):
         try:
             value = self._parsable[self._parsed_length:]
             date_time = dateutil.parser.parse(six.ensure_text(value, self._encoding))
-            date_time.utcoffset()  # dateutil accepts a zone offset of 24 hours or more, which datetime cannot use
+            if date_time.utcoffset():  # dateutil accepts a zone offset of 24 hours or more, which datetime cannot use
+                # the value is composed and rendered in GMT: the same instant is the same value however it was written
+                date_time = date_time.astimezone(dateutil.tz.UTC)
+            elif date_time.tzinfo is None:
+                # no zone, or a zone name that is not understood: the value is composed with the GMT label
+                date_time = date_time.replace(tzinfo=dateutil.tz.UTC)
         except (ValueError, ArithmeticError) as e:  # dateutil: OverflowError, decimal.InvalidOperation
             six.raise_from(InvalidValue(value, type(self), 'value'), e)
 
@@ -837,6 +842,10 @@ class ComposerText(ComposerBase):
         self.compose_string(value)
 
     def compose_date_time(self, value, fmt):
+        if value.utcoffset():
+            # the formats label the time as GMT: a value that carries another zone offset is converted first
+            value = value.astimezone(dateutil.tz.UTC)
+
         self.compose_string(value.strftime(fmt))
 
     def compose_time_delta(self, value):
